@@ -42,6 +42,10 @@ func (l *streamLog) add(ts time.Time, sequenceNumber uint16, ecn uint8) {
 	if unwrappedSequenceNumber < l.nextSequenceNumberToReport {
 		return
 	}
+	// Keep the arrival time of the first copy: a duplicate must not change what is reported.
+	if _, ok := l.log[unwrappedSequenceNumber]; ok {
+		return
+	}
 	l.log[unwrappedSequenceNumber] = &packetReport{
 		arrivalTime: ts,
 		ecn:         ecn,
